@@ -319,7 +319,10 @@ def d6(cx: Cx, ob: Ob) -> None:
             if items.get("prefix") != ("attr", r, "prefix") or items.get("identifier") != ("attr", r, "identifier"):
                 ob.violate(m.qualname, m.where, f"{cname}.from_reference does not copy (prefix, identifier)", detail="roles")
             nm = items.get("name")
-            if nm is None or not any(x == ("attr", r, "name") for x in subterms(nm)):
+            nameless = any(g.kind == "guard" and g.b is False and op(g.a) == "call" and callee_name(g.a) == "isinstance" and g.a[2][0] == r for g in ctx.guards)
+            if nameless and is_const(nm, None):
+                pass  # a plain Reference has no name to keep
+            elif nm is None or not any(x == ("attr", r, "name") for x in subterms(nm)):
                 ob.violate(m.qualname, m.where, f"{cname}.from_reference drops the source's name", detail="name")
             if dict(t[3]).get("context") != ("param", "converter"):
                 ob.violate(m.qualname, m.where, f"{cname}.from_reference does not pass context=converter", detail="context")
